@@ -29,8 +29,22 @@ THEOREMS = ["C15_key_complete", "C15_transparent", "C15_effective", "C15_crash_s
             "C15_stale_refuted", "C15_default_halo_refuted", "C15_crash_refuted",
             "C15_hypotheses_satisfiable"]
 TRUSTED = [
-    "Model/Cache.v is hand-written (repaired cache.py + the get/solve/put flow of solver.py); tied to the source by "
-    "exact differential execution of hit/miss traces, solver-run counts and stored key sets",
+    "Model/Cache.v is hand-written (repaired cache.py + the get/solve/put flow of solver.py); tied to the source (A) by "
+    "exact differential execution of hit/miss traces, solver-run counts and stored key sets, and (B) statically, for all "
+    "requests and stores, by harness/py2coq_cache.py + coq/Bridge/CacheBridge.v (re-extracted and re-proved on every run)",
+    "harness/py2coq_cache.py (fail-closed `ast` translator of _compute_key / get / put / clear / __init__ and of the "
+    "solver's cache block) and the semantics it targets, Model/CacheFlow.v: what path.exists(), np.load of a complete / "
+    "unreadable / missing entry, unlink, mkstemp(dir, prefix=key, suffix='.tmp'), np.savez to a file object or to the "
+    "final path and os.replace do to the model's store; which exception classes catch every failure of np.load "
+    "(Exception, BaseException); which request fields a solver argument consists of (sarg_fields: profiles = u,v,Kx,Ky,Kz; "
+    "domain = xmax,ymax; np.shape(srf_flx) = ny,nx; halo = raw before / resolved after `if halo is None: halo = max(domain)`)",
+    "canonical forms fed to the hash (np.asarray(x).tobytes(), str(x).encode(), x.encode(), repr of the tuple "
+    "(atleast_1d(levels).tolist(), tuple(int(n) for n in shape), bool(analytic), float(srf_bg_conc))) are pinned by "
+    "bridge_key_feeds; a token of Model/Cache.v stands for the VALUE of that form; that the concatenation of the fed "
+    "byte strings (no length prefixes, no dtype) separates different requests is part of hash_inj",
+    "the statements of steady_state_transport_solver between lookup and store are the model's `solve` (SBody): pinned "
+    "statement by statement by structure:solver-skeleton and checked by the translator not to re-bind or change in place "
+    "an argument that cache.put reads again; their numerical content is the subject of C01-C11",
     "token encoding of solver arguments in harness/props/c15.py (one integer per distinct argument content; "
     "levels canonicalised to the list of ints; domain/halo as value*8)",
     "numpy .npz reader/writer, zipfile, hashlib.sha256, os.replace, tempfile.mkstemp of CPython/numpy",
@@ -47,7 +61,11 @@ ASSUMPTIONS = [
     "footprint_shape_only (property C04): in footprint mode the result depends on the source array only through its "
     "shape (Section hypothesis; exercised here by the srf_flx-values pair, whose cached answer is compared bit-for-bit)",
     "halo_resolved_only: the solver uses halo only as max(xmax, ymax) when None (read off solver.py; exercised by the "
-    "None / explicit-default pair)",
+    "None / explicit-default pair; that the resolution precedes the lookup and that lookup and store hash the resolved "
+    "value is bridge_key_fields_get / _put)",
+    "a raised (not killed) put leaves at most a temporary file: the failure path of put is checked syntactically only "
+    "(bridge_put_guarded: catch-all handler, unlink of the temporary file, re-raise, no write to the final path); the "
+    "model has no failing-put event, leftover temporary files are allowed by C15_transparent",
     "the solver is deterministic bit-for-bit on the tiny grids used (cached answers are compared with a fresh uncached "
     "solve in the same process, and across processes with either process's fresh solve)",
 ]
@@ -704,6 +722,12 @@ def model_eval(ctx, items):
 
 def check(ctx):
     core.check_properties_file(ctx, "Properties/C15.v", THEOREMS, core.AX_NONE)
+    # tie (B): translator + bridge lemmas for all requests/stores; the cache block lives in solver.py, so the solver's
+    # statement skeleton is an obligation of this property as well
+    import py2coq_cache
+    import solverslices
+    py2coq_cache.run(ctx)
+    solverslices.check_skeleton(ctx)
     t0 = time.time()
     size_hint = 3100
     scns = pair_scenarios("pair") + pair_scenarios("cross", cross=True)
